@@ -818,6 +818,14 @@ func generate(f kit.Flags) [][]string {
 		}
 	}
 
+	// (2e) the evaluator (tick.Evaluate on an empty scope): directed statements, ordered pairs (sharded),
+	// random programs; the driver replays the evaluator MODEL on the real AST
+	evalN := 60
+	if thorough {
+		evalN = 600
+	}
+	cases = append(cases, evalCases(r.Fork(), evalN, shard, nshards)...)
+
 	// (3) generated: mutated real scripts, API chains, lambdas, JSON, UDF peers
 	lambdas, programs := baseJSON()
 	for i := 0; i < f.N; i++ {
